@@ -160,16 +160,17 @@ CHECKS["C14"] = ("Conditional.tla, TraceConditional.tla",
     "Trusted: TLC, the os.stat proxy. A date-only request is not required to detect a change within the same second.",
     "DESIGN.md 5 C14")
 
-CHECKS["C13"] = ("HeaderMap.tla, Cookie.tla",
+CHECKS["C13"] = ("HeaderMap.tla, TraceHeaderMap.tla, Cookie.tla",
     "TLC exhaustive model check of the response header mapping (every mutating operation in terms of the checked __setitem__: "
     "MutationsClean, RejectAtMutation, LowerKeys) with every edge replayed on a real MutableHeaders and every store emitted on "
-    "both interfaces; class-level cookie quoting rule (OnePair) in Cookie.tla; the classes are bound to real characters by "
-    "exhaustive per-character checks",
-    "All operation sequences of length <= 2 (thorough 3) over names/values with CR, LF, NUL, non-ASCII; all 256 characters in "
+    "both interfaces; trace validation by TLC of long recorded operation sequences (TraceHeaderMap.tla, invariants on); class-level "
+    "cookie quoting rule (OnePair) in Cookie.tla; the classes are bound to real characters by exhaustive per-character checks",
+    "All operation sequences of length <= 2 (thorough 3) over names/values with CR, LF, NUL, non-ASCII; 150 (thorough 1500) random "
+    "sequences of 60 (200) operations over 9 names x 9 values; constructor paths; all 256 characters in "
     "header names/values through item assignment, append (new and existing key), update, setdefault; cookie name/value over all "
     "256 characters alone and beside 8 delimiters; redirect targets over the BMP sample (thorough: all of Unicode).",
     "Trusted: TLC; the codec part is decided by enumeration on the implementation, the model contributes the class structure. "
-    "The constructor argument headers= is not a mutating operation.",
+    "A header given to a constructor may be refused there or at emission; it must not reach a header line.",
     "DESIGN.md 5 C13")
 CHECKS["C16"] = ("Cookie.tla",
     "TLC model check of quoting, request-side unquoting and expiry arithmetic on character classes x zones (OnePair, RoundTrip, "
